@@ -293,7 +293,8 @@ def run(ctx):
         ctx.inst('R5', 'Cel::is_empty', ok_, 'is_empty = %s; must be framedata.cel(id).is_none() without negation' % show(t_)[:120], ie_.span, key=ie_.name + '|R5|is_empty')
     _c09.walk_tests_every_member(ctx, rule='R5')      # a hidden nested layer drawn by the frame but not "visible" (seed C19-o)
     _c09.level_source(_R.View(ctx, {'V7': 'R5'}))      # "visible" rests on the nesting levels as the file gives them (seed C19-k: u8)
-    _render.gate(ctx, rule='R5')          # 'exactly one visible layer': the frame draws a cel iff Layer::is_visible of its layer
+    _render.gate(ctx, rule='R5')
+    _render.drawing_conditions(ctx, 'R5')      # the routes draw a cel under the same conditions: no fast path in one of them          # 'exactly one visible layer': the frame draws a cel iff Layer::is_visible of its layer
     _render.image_delegation(ctx, rule='R5')
 
     # ---------- R6: AsepriteFile::tilemap builds its Cel through cel(frame, layer_id)
